@@ -21,8 +21,14 @@ import (
 type CLICase struct {
 	Format  string `json:"format"`  // yaml | json
 	Conf    string `json:"conf"`    // the configuration (JSON text); pools carry discard_overflow or not
-	Discard []int  `json:"discard"` // informative, per pool: -1 absent, 0 false, 1 true
+	Discard []int  `json:"discard"` // informative, per pool: -1 absent, 0 false, 1 true, 2 / 3 a ${env:...} placeholder holding false / true
 }
+
+// values of discard_overflow given through the documented variable templates
+const (
+	envDiscardFalse = "VERIF_C17_DISCARD_FALSE"
+	envDiscardTrue  = "VERIF_C17_DISCARD_TRUE"
+)
 
 func genCLI(t *rapid.T) CLICase {
 	o := cg.DefaultOpts
@@ -31,10 +37,14 @@ func genCLI(t *rapid.T) CLICase {
 	c := CLICase{Format: rapid.SampledFrom([]string{"yaml", "yaml", "json"}).Draw(t, "format")}
 	for _, p := range root["pools"].([]any) {
 		pool := p.(map[string]any)
-		d := rapid.SampledFrom([]int{-1, -1, 0, 1}).Draw(t, "discard")
+		d := rapid.SampledFrom([]int{-1, -1, 0, 1, 2, 3}).Draw(t, "discard")
 		switch d {
 		case -1:
 			delete(pool, "discard_overflow")
+		case 2:
+			pool["discard_overflow"] = "${env:" + envDiscardFalse + "}"
+		case 3:
+			pool["discard_overflow"] = "${env:" + envDiscardTrue + "}"
 		default:
 			pool["discard_overflow"] = d == 1
 		}
@@ -53,6 +63,8 @@ func checkCLI(c CLICase, o *vf.Obs) error {
 	if len(pools) == 0 {
 		return fmt.Errorf("case has no pools")
 	}
+	_ = os.Setenv(envDiscardFalse, "false")
+	_ = os.Setenv(envDiscardTrue, "true")
 	// cli.readConfig ends the process (zap Fatal) on any error: only hand it configurations
 	// that the plain decoder accepts, so that a rejected one is a reported case, not a dead worker.
 	pre := cli.DefaultConfig()
@@ -90,11 +102,14 @@ func checkCLI(c CLICase, o *vf.Obs) error {
 		pool := p.(map[string]any)
 		want, label := true, "absent"
 		if v, given := pool["discard_overflow"]; given {
-			b, ok := v.(bool)
-			if !ok {
+			switch x := v.(type) {
+			case bool:
+				want, label = x, fmt.Sprintf("given_%v", x)
+			case string:
+				want, label = x == "${env:"+envDiscardTrue+"}", fmt.Sprintf("given_by_placeholder_%v", x == "${env:"+envDiscardTrue+"}")
+			default:
 				return fmt.Errorf("pool %d: discard_overflow is %T in the case", i, v)
 			}
-			want, label = b, fmt.Sprintf("given_%v", b)
 		} else {
 			anyAbsent = true
 		}
